@@ -7,3 +7,5 @@ for c in "$@"; do
   echo "$c: $out"
 done
 git -C /repo checkout -- .
+# the evidence files must describe runs on the unchanged tree: put the committed ones back
+git -C /verif checkout -- evidence
